@@ -16,13 +16,13 @@ TITLE = 'String changes are minimal'
 LEVEL = 'exploration'
 RULE = ("exhaustive: every ordered pair of strings over {a,b} up to length 5 (quick) / 7 (thorough), over {a,b,c} "
         "up to length 3 / 5 and over the non-ASCII alphabet {é,日} up to length 4 / 6; sampled: Hypothesis text over 2-4 letter ASCII and non-ASCII (accented, Greek, Cyrillic, CJK, astral) alphabets up to length 40 built as "
-        "prefix+middle+suffix with shared affixes and repeated runs. Oracle: reference LCS by dynamic programming; the "
+        "prefix+middle+suffix with shared affixes and repeated runs, plus a few 100-400 character pairs with little in common (running costs beyond 255). Oracle: reference LCS by dynamic programming; the "
         "script's from-side must spell a, its to-side b, kept characters are pairwise equal and their number equals "
         "LCS(a,b) (so removed=len(a)-LCS, inserted=len(b)-LCS), the same counts are read back from the ANSI rendering. "
         "Non-trivial: 0 < LCS < min(len a, len b). Distinct by (a,b).")
 ASSUMPTIONS = [
     "the 1-char/1-char special case (a single Match of cost 1) counts as one removed plus one inserted character",
-    "strings longer than 40 characters and alphabets larger than 4 letters are not explored",
+    "beyond 40 characters only one family is explored: 100-400 character strings with little in common (48 pairs quick / 640 thorough)",
 ]
 SHRINK = {'strings': ['a', 'b']}
 TECHNIQUE = 'exhaustive enumeration over small alphabets + Hypothesis sampling, against a reference LCS dynamic programme'
@@ -73,6 +73,7 @@ def jobs(tier):
             js.append({'kind': 'enum', 'alpha': alpha, 'maxlen': ml, 'shard': s})
     for s in range(NSHARDS):
         js.append({'kind': 'sample', 'n': samp, 'shard': s})
+        js.append({'kind': 'long', 'n': 3 if tier == 'quick' else 40, 'shard': s})
     return js
 
 
@@ -96,7 +97,26 @@ def sampled_pairs(draw):
     return {'a': a[:40], 'b': b[:40]}
 
 
+@st.composite
+def long_pairs(draw):
+    """strings of 100-260 characters with little in common (no shared prefix/suffix to trim), so that running costs pass
+    255, 511, ... inside the matrix"""
+    n1, n2 = draw(st.integers(60, 130)), draw(st.integers(60, 130))
+    core = draw(st.text(alphabet='QRS', min_size=1, max_size=3))
+    t1, t2 = draw(st.integers(0, 4)), draw(st.integers(0, 4))
+    a = 'a' * n1 + core + 'c' * t1
+    b = 'b' * n2 + core + 'd' * t2
+    if draw(st.booleans()):
+        a, b = b, a
+    if draw(st.integers(0, 3)) == 0:
+        a = a + 'x' * draw(st.integers(100, 140))       # one side beyond 255 characters
+    return {'a': a, 'b': b}
+
+
 def run_job(job, seed, sink):
+    if job['kind'] == 'long':
+        hyp_drive(long_pairs(), job['n'], seed, sink)
+        return
     if job['kind'] == 'enum':
         i = 0
         for a in all_strings(job['alpha'], job['maxlen']):
